@@ -2,6 +2,8 @@
 
 package store
 
+import "os"
+
 // Verification shims (build tag `verif`, overlay only).
 
 // VerifGcLog runs one pass of the size-triggered collector synchronously (the
@@ -27,4 +29,28 @@ func (s *Storer) VerifRefs() map[int64]int32 {
 		m[-1] = ds.rdb.Ref()
 	}
 	return m
+}
+
+// VerifRotateInSteps performs the rotation that AofRotater.write performs when the
+// size limit is exceeded — closeAof(), then openFile(right), both under w.mux —
+// with a stop in the middle of openFile: window() runs at the instant at which
+// the next file exists (created, header written, synced: exactly the first half
+// of openFile) but openFile's Open observer has not yet added it to the index.
+// The second half is the real openFile (O_TRUNC re-creates the same file).
+func VerifRotateInSteps(w *AofWriter, window func()) error {
+	w.mux.Lock()
+	defer w.mux.Unlock()
+	if err := w.closeAof(); err != nil {
+		return err
+	}
+	fp := aofFilePath(w.dir, w.right.Load())
+	f, err := os.OpenFile(fp, os.O_WRONLY|os.O_CREATE|os.O_TRUNC, 0777)
+	if err != nil {
+		return err
+	}
+	f.Write(fixHeader[:])
+	f.Sync()
+	f.Close()
+	window()
+	return w.openFile(w.right.Load())
 }
